@@ -124,6 +124,36 @@ def dnf(expr, polarity):
     return [[(expr, polarity)]]
 
 
+class just(object):
+    """Justification predicate for unguarded_path(): a branch atom equal to one
+    of `specs` = (source text, polarity).  Texts are written with the
+    function's local names; both sides are compared canonically and with
+    single-definition locals expanded at the branch, so `if not x.y:` and
+    `tmp = x.y ... if not tmp:` justify alike."""
+    wants_nid = True
+
+    def __init__(self, cfg, *specs):
+        self.cfg = cfg
+        self.specs = [Q(t, p) for t, p in specs]
+
+    def __call__(self, e, pol, nid=None):
+        from . import canon
+        et = canon.ctext(e)
+        for t, p in self.specs:
+            if p != pol:
+                continue
+            if et == t:
+                return True
+            if nid is not None:
+                try:
+                    want = ast.parse(t, mode="eval").body
+                    if self.cfg.itext(e, nid) == self.cfg.itext(want, nid):
+                        return True
+                except SyntaxError:
+                    pass
+        return False
+
+
 def branch_justifies(cfg_node, is_justification, cfg=None):
     """A branch node justifies skipping a check when every disjunct of its
     (canonical) condition contains at least one justification atom."""
@@ -133,9 +163,13 @@ def branch_justifies(cfg_node, is_justification, cfg=None):
         alts_list = [dnf(cfg_node.ast, cfg_node.kind == "true")]
     else:
         alts_list = [cfg.cdnf(cfg_node.id), cfg.cdnf(cfg_node.id, inline=True)]
+    if getattr(is_justification, "wants_nid", False):
+        tn = cfg_node.test if cfg is not None else None
+        fn = lambda e, pol: is_justification(e, pol, tn)
+    else:
+        fn = is_justification
     for alts in alts_list:
-        if all(any(is_justification(e, pol) for e, pol in conj)
-               for conj in alts):
+        if all(any(fn(e, pol) for e, pol in conj) for conj in alts):
             return True
     return False
 
@@ -238,3 +272,46 @@ def Q(text, polarity=True):
     """Canonical (text, polarity) for an expectation written naturally."""
     from . import canon
     return canon.query(text, polarity)
+
+
+def eval_context(test, target):
+    """Facts implied by evaluation having reached sub-expression `target`
+    inside the boolean expression `test`: earlier operands of an enclosing
+    `and` were truthy, of an enclosing `or` falsy.  {text: 'T'/'F'}"""
+    out = {}
+
+    def rec(e):
+        if e is target:
+            return True
+        if isinstance(e, ast.BoolOp):
+            for i, v in enumerate(e.values):
+                if any(x is target for x in ast.walk(v)):
+                    for prev in e.values[:i]:
+                        out[unparse(prev)] = "T" if isinstance(e.op, ast.And) \
+                            else "F"
+                    return rec(v)
+            return False
+        if isinstance(e, ast.UnaryOp):
+            return rec(e.operand)
+        return any(x is target for x in ast.walk(e))
+    rec(test)
+    return out
+
+
+def result_reaches(cfg, nid, call, goals, value="F", assume=None, avoid=None):
+    """Witness path from the node that evaluates `call` to one of `goals`
+    under the assumption that the call's result is falsy (value='F') / truthy
+    ('T') - however the result is consumed: tested directly, negated, as one
+    operand of and/or, or first bound to a local that is tested later."""
+    node = cfg.nodes[nid]
+    env = dict(assume or {})
+    env[unparse(call)] = value
+    try:
+        env[cfg.itext(call, nid)] = value
+    except Exception:
+        pass
+    if node.kind == "test":
+        env.update(eval_context(node.ast, call))
+    goals = set(goals)
+    return cfg.flag_search(nid, {}, lambda n, vd: n in goals, avoid=avoid or (),
+                           assume=env)
